@@ -621,17 +621,27 @@ def parseNewHosts (s : String) : Option (List NewHost) :=
     | some [hl, il, a1, a2] => some ⟨hl, il, [a1, a2]⟩
     | _ => none
 
+/-- tie G: `trustHosts` as translated from the working tree on this run: what it writes into the temporary file (the
+    normalised addresses come from the oracle: the server name and the remote address stand for themselves) -/
+def c17translated (hosts : List NewHost) (oldLines : List Bytes) : Option Bytes :=
+  let ext : Go.Ext := { parseFloat := fun _ => (0, none), scanLines := fun _ => oldLines }
+  let gh := hosts.map fun h => ({ server := h.addrs.headD [], remote := h.addrs.getD 1 [], hostLine := h.hostLine, ipLine := h.ipLine } : Gen.KnownHosts.unknownHost)
+  match Gen.KnownHosts.KnownHostsCallback.trustHosts ext ⟨str "/k", []⟩ gh with
+  | .ok c => some (c.ops.filterMap fun op => match op with | .write _ d => some d | _ => none).flatten
+  | _ => none
+
 def opC17Trust : List String → Res
   | [old, _hosts, oracle] => match unhex old, parseNewHosts oracle with
     | some old, some hosts =>
       let out := trustHostsFile 65536 hosts old
+      let genBad := c17translated hosts (scanLinesLimit 65536 old) != some out
       let oldLines := scanLinesLimit 65536 old
       let raw := scanLinesLimit.scanLinesRaw old
       let replaced := oldLines.filter (fun l => (hosts.flatMap (·.addrs)).contains (lineAddress l))
       -- specification: new entries, then every old line not being replaced, each once, in order
       let spec := (hosts.flatMap (fun h => [h.hostLine, h.ipLine]) ++
                    (raw.map dropCR).filter (fun l => !(hosts.flatMap (·.addrs)).contains (lineAddress l))).flatMap (· ++ [NL])
-      { m := hexOf out ++ ";tmpleft=false", s := hexOf spec ++ ";tmpleft=false",
+      { m := if genBad then "TRANSLATED-TRUSTHOSTS-DIFFERS-FROM-MODEL" else hexOf out ++ ";tmpleft=false", s := hexOf spec ++ ";tmpleft=false",
         g := if raw.any (fun l => l.length ≥ 65536) then "long-line" else "-",
         t := joinWith "," ((if !hosts.isEmpty then ["newhost"] else []) ++ (if !replaced.isEmpty then ["replaced"] else [])
           ++ (if oldLines.any (fun l => l.head? = some 124) then ["hashed"] else [])
